@@ -12,7 +12,7 @@ from vlib import Inconclusive, add_tlc_cov, log, require_clean, run_tlc_shards
 INVS = {
     "C01": ["C01_Sound", "C01_NoStuck", "C01_Handles"],
     "C02": ["C02_Complete", "SpecTabOK"],
-    "C06": ["C06_FirstBad", "C06_NoDiverge", "C01_NoStuck", "SpecTabOK"],
+    "C06": ["C06_FirstBad", "C06_NoDiverge", "C06_NoFalseAccept", "C01_NoStuck", "SpecTabOK"],
     "C04": ["C04_Behaviour"],
 }
 
@@ -25,8 +25,8 @@ def population(ctx):
         return ["-corpus", conf.CORPUS, "-nexpr", 1500, "-nrand", 1500]
     if ctx.quick():
         return ["-corpus", conf.CORPUS, "-small-max", 3, "-small-slices", 24, "-small-slice", s % 24,
-                "-nrand", 220, "-ndp", 60, "-nctx", 80, "-nexpr", 40]
-    return ["-corpus", conf.CORPUS, "-small-max", 3, "-nrand", 3000, "-ndp", 800, "-nctx", 1000, "-nexpr", 400]
+                "-nrand", 220, "-ndp", 60, "-nctx", 80, "-nexpr", 40, "-nbig", 2, "-extra", 30]
+    return ["-corpus", conf.CORPUS, "-small-max", 3, "-nrand", 3000, "-ndp", 800, "-nctx", 1000, "-nexpr", 400, "-nbig", 15, "-extra", 60]
 
 
 def write_cfg(path, invs, kmax, limit, klang=0):
@@ -85,7 +85,7 @@ def run_driver(ctx, replay):
             json.dump({"property": prop, "module": "ConfDriver.tla", "invariant": name, "input": inp, "kind": "driver"},
                       open(os.path.join(d, "meta.json"), "w"), indent=1)
             open(os.path.join(d, "tlc-state.txt"), "w").write(txt)
-            rules = "; ".join("%s -> %s" % (ru["lhs"], " ".join(ru["rhs"])) for ru in o["g"]["rules"][1:])
+            rules = "; ".join("%s -> %s" % (ru["lhs"], " ".join(ru["rhs"] or [])) for ru in o["g"]["rules"][1:])
             ctx.violation(key, d, "grammar %s, input %s: the recorded table driven by the LR driver violates %s\n%s" % (
                 o["id"], inp, name, rules))
     ctx.cov["traces_validated_against_impl"] += summary["outcomes"].get("ok", 0)
